@@ -7,7 +7,7 @@ from sa.analyses.buffers import BoundedRead, assignments, deps, linear
 from sa.db import AnalysisError, ClassInfo, FunctionInfo, dotted, mangle, norm_stmt, own_nodes
 
 CLAIM = {
-    "text": "Decides two structural necessities of chunking-independent parsing: (i) every generator that parses a pre-allocated, partially filled receive buffer (all buffered_incremental_deserialize implementations and the scanners / wrappers they delegate to) reads that buffer - slices, searches, hand-overs to callees - only up to a received-length variable (a value sent into the generator, a bounded search result, or a linear combination of those), so bytes that were never received cannot influence the result; (ii) the un-parsed remainder attached to a parse error survives every translation layer: each handler that converts an IncrementalDeserializeError / PacketConversionError / DeserializeError into the next layer's error passes on exc.remaining_data (or the frame's own remainder), and both consumers store it as the new buffer; plus the shape of LimitOverrunError's remainder computation (drop bytes one at a time until the rest is a *prefix* of the separator). Also decided (one error per bad frame, the stream stays usable): no input-dependent exception class but the parse-error family escapes any deserialisation entry point, protocol builder or consumer (escape analysis shared with C06), and no finished / dead parser generator stays parked in a consumer after a parse error (typestate shared with C10). The saved-remainder counter is consumed once, the JSON end-of-frame test covers negative counts, and in the asyncio protocol's copy-out paths the raw receive buffer is read only as `[:level]` and bytes are conserved (level_after + handed == level_before, decided over linear forms). Round 4: every frame taken from the stream reader in a serializer's incremental generator reaches the decoder (or a return / raise) before the next frame is read - an empty frame is still a frame; the escape-run test of the JSON framer (C01.esc) and the buffer-size / limit agreement of the buffered path (C07.fixed) are decided here too. Round 5: the limit test of the JSON splitter (C07.early) and the hold typestate of the server-side request receivers (C15) are decided here as well. Round 6: every StreamProtocolParseError built for an incremental deserialization error (LimitOverrunError included) carries exc.remaining_data; strip-family calls on the separator are flagged on both receive paths.",
+    "text": "Decides two structural necessities of chunking-independent parsing: (i) every generator that parses a pre-allocated, partially filled receive buffer (all buffered_incremental_deserialize implementations and the scanners / wrappers they delegate to) reads that buffer - slices, searches, hand-overs to callees - only up to a received-length variable (a value sent into the generator, a bounded search result, or a linear combination of those), so bytes that were never received cannot influence the result; (ii) the un-parsed remainder attached to a parse error survives every translation layer: each handler that converts an IncrementalDeserializeError / PacketConversionError / DeserializeError into the next layer's error passes on exc.remaining_data (or the frame's own remainder), and both consumers store it as the new buffer; plus the shape of LimitOverrunError's remainder computation (drop bytes one at a time until the rest is a *prefix* of the separator). Also decided (one error per bad frame, the stream stays usable): no input-dependent exception class but the parse-error family escapes any deserialisation entry point, protocol builder or consumer (escape analysis shared with C06), and no finished / dead parser generator stays parked in a consumer after a parse error (typestate shared with C10). The saved-remainder counter is consumed once, the JSON end-of-frame test covers negative counts, and in the asyncio protocol's copy-out paths the raw receive buffer is read only as `[:level]` and bytes are conserved (level_after + handed == level_before, decided over linear forms). Round 4: every frame taken from the stream reader in a serializer's incremental generator reaches the decoder (or a return / raise) before the next frame is read - an empty frame is still a frame; the escape-run test of the JSON framer (C01.esc) and the buffer-size / limit agreement of the buffered path (C07.fixed) are decided here too. Round 5: the limit test of the JSON splitter (C07.early) and the hold typestate of the server-side request receivers (C15) are decided here as well. Round 6: every StreamProtocolParseError built for an incremental deserialization error (LimitOverrunError included) carries exc.remaining_data; strip-family calls on the separator are flagged on both receive paths. Round 7: the frame bounds returned by the shared separator scanner are used unchanged by the buffered deserializers (no skipping of 'superfluous' separators).",
     "note": "Trusted: Python slicing/search semantics. Not decided: frame-by-frame equality of the two receive paths, 'exactly one error per bad frame' (value level; DESIGN section 5 O1 records that an oversized frame yields several errors on the pinned tree).",
     "technique": "bounded-read data-flow (received-length closure over assignments, linear forms), exception-payload flow checks, shape facts - all over the ast program database",
 }
